@@ -6,6 +6,12 @@ ALL = ["C%02d" % i for i in range(1, 21)]
 
 WRAP_NOTE = "Shaped runs are synthetic (generator asserts the shaper output contract); break opportunities come from the segmenter (C06). Negative letter spacing is checked for conservation only (measure not monotone)."
 CHECKS = {
+ "C16": dict(
+   level="fault_enumeration",
+   text="(a) round trip of the index of every corpus face and of extreme synthetic footprints; (b) every prefix (crash point) of the written gzip stream, every byte x 255 values of it, and byte/prefix faults of the uncompressed payload re-compressed, for two indexes; (c) the refresh sequence on every crash state of the cache file; (d) explicit-state search over file-system histories (17 operations incl. backward mtimes, renames, symlinks) with a refresh and a persist/reload after each step, deduplicated on (tree listing, persisted index): incremental scan == scan from scratch.",
+   note="refreshSystemFontsIndex is emulated on scratch directories with the same three calls (it reads host font directories otherwise). A corrupted cache that still parses to another index is counted, not judged. Hooks: fontscan.Verif* index entry points.",
+   technique="exhaustive crash-point / single-fault enumeration (E4) + explicit-state search over file-system histories on the real scanner (E2)",
+   design="1/C16", engine="E4 fault"),
  "C14": dict(
    level="model_checking",
    text="Explicit exploration of every operation history up to depth 4 (thorough 5) on a real FontMap, from the empty map (phase A) and from 4 pre-populated databases (phase B): AddFace of 7 synthetic faces, SetQuery (10), SetScript (3), SetRuneCacheSize (4), ResolveFace (7 runes). Every history ending in ResolveFace is compared with a fresh uncached FontMap (cache transparency / history independence) and with a reference model of the four documented steps validated on the unchanged tree.",
